@@ -23,6 +23,36 @@ def ids_of(files):
     return out
 
 
+def junk_lookup(run, model, rng):
+    """look-ups in a directory that also holds files too short to be a PEL (empty, a few bytes, cut inside the private header),
+    sorting before and after the PEL looked for: the PEL is still shown, exit status 0, no traceback"""
+    files = dirgen.gen_dir(model, rng, rng.randrange(1, 4), plugins=True)
+    target = rng.choice(files)
+    obmc = rng.choice([0, 3, 77])
+    tdata = dirgen.set_ids(target[1], obmc=obmc)
+    tname = "%s_%08X" % (rng.choice(["b", "m", "y"]), target[2]["eid"])
+    files = [f for f in files if f is not target and int.from_bytes(f[1][28:32], "big") != obmc] + [(tname, tdata, target[2])]
+    shorts = [b"", b"P", b"PH\0\x30\1", tdata[:20], tdata[:47], bytes(7)]
+    for k in range(rng.randrange(1, 4)):
+        files.append((rng.choice(["0", "a", "n", "zz"]) + "_short%d" % k, rng.choice(shorts), dict(kind="junk")))
+    eid, plid = target[2]["eid"], int.from_bytes(tdata[40:44], "big")
+    rp = dict(fn="junk-lookup", files=[[f[0], f[1].hex()] for f in files])
+    with dirgen.TempDir(files) as d:
+        for opt, arg in (("--bmc-id", str(obmc)), ("-i", "%08X" % eid), ("--plid", "%08X" % plid)):
+            rc, out, err = cli_runner.run_inproc(["-p", d, opt, arg])
+            run.evaluations += 1
+            run.count("junk-lookup:" + opt)
+            want = "0x%08X" % eid
+            try:
+                j = json.loads(out, object_pairs_hook=OrderedDict)
+                found = (j.get("Private Header", {}).get("Entry Id") == want) if opt != "--plid" else want in j
+            except Exception:  # noqa: BLE001
+                found = False
+            if rc != 0 or "Traceback" in err or not found:
+                run.violation("junk-lookup:" + opt, "peltool %s %s in a directory that also holds too-short files: exit status %r, PEL shown: %s" % (opt, arg, rc, found),
+                              dict(rp, kind="S", argv=[opt, arg], stdout=out[:300], stderr=err[-300:]))
+
+
 def refcode_of(data, plugins):
     r = pelgen.impl_decode(data, plugins)
     if r["kind"] != "ok":
@@ -37,6 +67,8 @@ def run(run, model, proof):
     rng = run.rng
     thorough = run.tier == "thorough"
     run.rule = RULE
+    for _ in range(200 if thorough else 15):
+        junk_lookup(run, model, rng)
     n = 2500 if thorough else 220
     small = [0, 1, 2, 0x10, 0xABC, 0x0FFFFFFF, 0x10000000, 0x00000100, 0x01000001, 0xFFFFFFFF, 0x0000000A]
     for i in range(n):
